@@ -67,6 +67,96 @@ func packMsgVals(g *gmsg, vals map[int]*Sx) []byte {
 	return nil
 }
 
+// value with every subfield populated
+func genFullValue(r *Rng, n *gnode) *Sx {
+	if !n.comp {
+		return genPrimValue(r, n)
+	}
+	var parts []*Sx
+	for _, t := range n.order {
+		parts = append(parts, L(X([]byte(t)), genFullValue(r, n.subs[t])))
+	}
+	return L(A("C"), L(parts...))
+}
+
+// value that populates one leaf only, along a path of first-choice composites (preferring composite children)
+func genSparseValue(r *Rng, n *gnode) *Sx {
+	if !n.comp {
+		return genPrimValue(r, n)
+	}
+	pick := n.order[0]
+	if n.mode != "pos" {
+		var comps []string
+		for _, t := range n.order {
+			if n.subs[t].comp {
+				comps = append(comps, t)
+			}
+		}
+		if len(comps) > 0 {
+			pick = comps[r.Intn(len(comps))]
+		} else {
+			pick = n.order[r.Intn(len(n.order))]
+		}
+	}
+	return L(A("C"), L(L(X([]byte(pick)), genSparseValue(r, n.subs[pick]))))
+}
+
+// paths (below the top) of composite subfields that themselves have a composite child
+func midPaths(n *gnode, prefix string, depth int, acc *[]string) {
+	if !n.comp {
+		return
+	}
+	for _, t := range n.order {
+		c := n.subs[t]
+		if !c.comp {
+			continue
+		}
+		p := prefix + "." + t
+		*acc = append(*acc, p)
+		midPaths(c, p, depth+1, acc)
+	}
+}
+
+// populate everything, unset a subfield path, re-populate sparsely below it: nothing that was unset may come back
+func genResurrection(r *Rng, g *gmsg) []*Sx {
+	var cands []int
+	for _, id := range g.ids {
+		var ps []string
+		midPaths(g.nodes[id], fmt.Sprint(id), 0, &ps)
+		if len(ps) > 0 {
+			cands = append(cands, id)
+		}
+	}
+	if len(cands) == 0 {
+		return nil
+	}
+	id := cands[r.Intn(len(cands))]
+	node := g.nodes[id]
+	var ps []string
+	midPaths(node, fmt.Sprint(id), 0, &ps)
+	path := ps[r.Intn(len(ps))]
+	ops := []*Sx{op("mti", X([]byte("0100"))), op("setval", I(id), genFullValue(r, node)), op("get")}
+	if r.Chance(1, 3) {
+		ops = append(ops, op("pack"))
+	}
+	ops = append(ops, op("unsetp", X([]byte(path))), op("get"))
+	// re-populate along the unset path: walk the value down the path, then go sparse
+	var build func(n *gnode, segs []string) *Sx
+	build = func(n *gnode, segs []string) *Sx {
+		if len(segs) == 0 || !n.comp {
+			return genSparseValue(r, n)
+		}
+		c, ok := n.subs[segs[0]]
+		if !ok {
+			return genSparseValue(r, n)
+		}
+		return L(A("C"), L(L(X([]byte(segs[0])), build(c, segs[1:]))))
+	}
+	segs := strings.Split(path, ".")[1:]
+	ops = append(ops, op("setval", I(id), build(node, segs)), op("get"), op("pack"), op("json"), op("get"))
+	return ops
+}
+
 func genHistory(r *Rng, g *gmsg, n int) []*Sx {
 	var ops []*Sx
 	observe := func() { ops = append(ops, op("get")) }
@@ -144,6 +234,11 @@ func init() {
 				continue
 			}
 			emit(L(A("msg"), g.term, L(genHistory(r, g, 2+r.Intn(7))...)))
+			if i%3 == 0 {
+				if ops := genResurrection(r, g); ops != nil {
+					emit(L(A("msg"), g.term, L(ops...)))
+				}
+			}
 		}
 		// exhaustive short sequences over a 14-letter alphabet on a fixed small spec with a nested composite
 		spec, err := parseSx("(M (P String ASCII ASCII.Fixed 4 N x00 D) (8 1 Binary Binary.Fixed) ((2 (P String ASCII ASCII.LL 19 N x00 D)) (3 (P Numeric ASCII ASCII.Fixed 6 L x30 D)) (55 (C ASCII.LLL 999 (T 0 BerTag N x00 ByHex 1 nil) ((x3941 (P Hex Binary BerTLV 3 N x00 D)) (x35463241 (P Hex Binary BerTLV 2 N x00 D))))) (70 (C ASCII.LL 99 (T 2 ASCII L x30 ByInt 0 nil) ((x31 (P String ASCII ASCII.LL 5 N x00 D)) (x32 (C ASCII.LL 40 (T 0 nil N x00 ByInt 0 nil) ((x31 (P String ASCII ASCII.L 3 N x00 D)) (x32 (P Numeric ASCII ASCII.L 4 N x00 D))))))))))")
